@@ -283,13 +283,13 @@ def shard(tier, seed, idx, n):
     ign_clients = {}
     enc_clients = {}
 
-    def enc_client(uni, prefix):
-        k = (uni, prefix)
+    def enc_client(uni, prefix, encoding="utf8"):
+        k = (uni, prefix, encoding)
         if k not in enc_clients:
             if len(enc_clients) > 64:
                 enc_clients.clear()
             enc_clients[k] = base.Client(("mc1", 11211), socket_module=net, allow_unicode_keys=uni, key_prefix=prefix,
-                                         encoding="utf8")
+                                         encoding=encoding)
         return enc_clients[k]
 
     down_clients = {}
@@ -385,6 +385,21 @@ def shard(tier, seed, idx, n):
             judge_direct(res, st, base, "Client(ignore_exc).get", iget, key, uni, prefix)
             ec = enc_client(uni, prefix)
             judge_direct(res, st, base, "Client(encoding=utf8).check_key", lambda: ec.check_key(key, prefix), key, uni, prefix)
+            # the value encoding is not the key encoding: keys are ASCII, or UTF-8 with unicode keys, whatever `encoding` says
+            for enc_ in ("latin-1", "cp1252", "utf-16"):
+                lc = enc_client(uni, prefix, enc_)
+                judge_direct(res, st, base, "Client(encoding=%s).check_key" % enc_, lambda: lc.check_key(key, prefix), key, uni, prefix)
+                if legal and isinstance(key, str) and not key.isascii():
+                    n2, m2 = len(srv.cmdlog), len(srv.malformed)
+
+                    def lget():
+                        lc.get(key)
+                        cmds = srv.cmdlog[n2:]
+                        if srv.malformed[m2:] or len(cmds) != 1 or len(cmds[0].keys) != 1:
+                            return b"<no single well-formed get on the wire>"
+                        res.count("wire_keys_checked")
+                        return cmds[0].keys[0]
+                    judge_direct(res, st, base, "Client(encoding=%s).get" % enc_, lget, key, uni, prefix)
             if i % 2 == 0 or not legal:
                 dc = down_client(uni, prefix)
 
